@@ -115,18 +115,18 @@ Definition ed_all_commands_present : bool :=
 Definition setter_ok (want_name want_field : string) (s : string * string * bool) : bool :=
   let '(n, f, from_param) := s in (n =? want_name) && (f =? want_field) && from_param.
 
-(* the three goroutines of startScanEngine, as the model describes them *)
+(* the three goroutines of startScanEngine, as the model describes them (local names abstracted by
+   the translator: ctx' / cancel = results of context.WithCancel, Start.0 / Start.1 = done / errc) *)
 Definition sse_shape_ok : bool :=
-  strs_eqb sse_first_stmts ["ctx, cancel := context.WithCancel(ctx)"; "defer cancel()"] &&
-  (sse_start_stmt =? "done, errc := engine.Start(ctx, &conf.scanRange)") &&
+  sse_ctx_derived && (sse_start_ctx =? "ctx'") &&
+  strs_eqb sse_frame ["defer cancel()"; ".Add"; "go"; "go"; ".Add"; "go"; ".Wait"] &&
   match sse_goroutines with
   | [lg; dl; dr] =>
-      strs_eqb lg ["defer wg.Done()"; "logger.LogResults(ctx, engine.Results())"] &&
-      strs_eqb dl ["defer cancel()"; "<-done"; "<-time.After(conf.exitDelay)"] &&
-      strs_eqb dr ["defer wg.Done()"; "for err := range errc { logger.Error(err) }"]
+      strs_eqb lg ["defer .Done()"; ".LogResults(ctx', .Results())"] &&
+      strs_eqb dl ["defer cancel()"; "<-Start.0"; "<-time.After(.exitDelay)"] &&
+      strs_eqb dr ["defer .Done()"; "range Start.1 {.Error(elem)}"]
   | _ => false
-  end &&
-  Nat.eqb sse_wg_adds 2 && strs_eqb sse_wait_after_goroutines ["3"].
+  end.
 
 Definition exit_delay_wiring_ok : bool :=
   (default_exit_delay_ns =? 300000000)%Z &&
@@ -138,6 +138,9 @@ Definition exit_delay_wiring_ok : bool :=
   end &&
   forallb cmd_ok ed_cmds && ed_all_commands_present &&
   sse_shape_ok &&
-  strs_eqb packet_start_scan_engine_args ["ctx"; "engine"; "&conf.engineConfig"] &&
-  str_in "newConf := *conf" port_chunk_loop_stmts &&
-  str_in "if err := startPacketScanEngine(ctx, &newConf); err != nil { return err }" port_chunk_loop_stmts.
+  match packet_start_scan_engine_args with
+  | [_; _; c] => c =? "&.engineConfig"
+  | _ => false
+  end &&
+  (port_chunk_passes =? "&copy of parameter *packetScanConfig") &&
+  strs_eqb port_chunk_assigns [".scanRange.Ports"].
